@@ -455,6 +455,16 @@ func runFault(s *session, f faultSpec, sched string) (*faultRun, error) {
 		cache[m.ID] = out
 		return out, m.Bcast, m.From.PID, false
 	}
+	if sched == "slow-starters" {
+		victims := map[int]bool{}
+		for _, n := range w.Nodes {
+			if n != fr.dev {
+				victims[n.Idx] = true
+			}
+		}
+		w.Run(sim.PreStart(victims), nil)
+		return fr, nil
+	}
 	w.Run(sim.StartsThen(schedByName(sched, w)), nil)
 	return fr, nil
 }
